@@ -183,7 +183,8 @@ def R2_constants_validated(run):
     ok = len(cs) == 1 and acc_chain(cs[0][2][2]) == "whirlpool.tick_spacing" and cfg.must_pass_call(h, cs[0][0])[0]
     run.check("R2", "merge-validated", ok, "set_adaptive_fee_constants does not validate the merged constants against the pool's tick spacing", loc=h.loc(), detail="initialize_adaptive_fee_constants(merged, whirlpool.tick_spacing)?")
     rs = calls_to(h, ends("Oracle::reset_adaptive_fee_variables"))
-    run.check("R2", "variables-reset-on-change", len(rs) == 1 and cs and cfg.dominates(h, cs[0][0], rs[0][0]), "changing the constants does not reset the adaptive-fee variables", loc=h.loc(), detail="reset after validation")
+    run.check("R2", "variables-reset-on-change", len(rs) == 1 and bool(cs) and cfg.dominates(h, cs[0][0], rs[0][0]) and not cfg.success_reach(h, 0, cut_blocks=[rs[0][0]]),
+              "changing the constants does not unconditionally reset the adaptive-fee variables (stale variables can exceed the new maximum)", loc=h.loc(), detail="reset on every success path, after validation")
 
 
 def R3_reference_update(run):
@@ -280,7 +281,27 @@ def R3_reference_update(run):
             for (bi_, si_) in field_reads(nw, fld):
                 if not (cfg.dominates(nw, ub, bi_) and bi_ != ub):
                     late.append(fld)
-        run.check("R3", "range-from-updated-reference", not late and bool(field_reads(nw, "volatility_reference")) and bool(field_reads(nw, "tick_group_index_reference")),
+        # ... and they read the very object update_reference() mutated, not the caller's stale copy
+        self_op = cs[0][1]["a"][0]
+        sl = (self_op.get("mv") or self_op.get("cp") or {}).get("l")
+        obj = None
+        for bb_ in nw.blocks:
+            for st_ in bb_["s"]:
+                if st_["k"] == "=" and st_["p"].get("l") == sl and "p" not in st_["p"] and "ref" in st_["rv"]:
+                    obj = st_["rv"]["ref"]["l"] if "p" not in st_["rv"]["ref"] else None
+        for fld in ("volatility_reference", "tick_group_index_reference"):
+            for (bi_, si_) in field_reads(nw, fld):
+                st_ = nw.blocks[bi_]["s"][si_] if si_ < len(nw.blocks[bi_]["s"]) else None
+                places = []
+                if st_ is not None:
+                    for k_ in ("use", "a", "b"):
+                        o_ = st_["rv"].get(k_)
+                        if isinstance(o_, dict):
+                            places.append(o_.get("cp") or o_.get("mv"))
+                for pl_ in places:
+                    if pl_ and "p" in pl_ and any(isinstance(e, dict) and e.get("f") == fld for e in pl_["p"]) and pl_["l"] != obj:
+                        late.append(fld + " (read from another copy than the updated one)")
+        run.check("R3", "range-from-updated-reference", obj is not None and not late and bool(field_reads(nw, "volatility_reference")) and bool(field_reads(nw, "tick_group_index_reference")),
                   "FeeRateManager::new reads %s before update_reference(): the saturation (skip) range would be sized from the stale reference" % sorted(set(late)), loc=nw.loc(),
                   detail="volatility_reference / tick_group_index_reference are read only after update_reference()?")
     run.check("R3", "reference-inputs", ok, "FeeRateManager::new does not update the reference with (floor(current_tick / tick_group_size), timestamp, constants)?", loc=nw.loc(), detail="update_reference(floor(tick / group_size), now, constants)?")
@@ -540,4 +561,39 @@ def R6_stepping(run):
               detail="Adaptive{a_to_b, group := floor(tick/size), static_fee_rate, constants, variables}")
 
 
-RULES = [R1_clamps, R2_constants_validated, R3_reference_update, R4_gates, R5_stored_variables, R6_stepping]
+def check_widths(run, rule, facts, afv, frm, tag=""):
+    WIDTH = {"u8": 8, "u16": 16, "u32": 32, "u64": 64, "u128": 128}
+
+    def arith(fn):
+        pv = prov_of(fn)
+        out = []
+        for bi, bb in enumerate(fn.blocks):
+            for si, st in enumerate(bb["s"]):
+                if st["k"] == "=" and st["rv"].get("bin") in ("Mul", "MulWithOverflow", "Add", "AddWithOverflow"):
+                    ty = fn.locals[st["p"]["l"]]["t"].strip("()").split(",")[0].strip()
+                    out.append((st["rv"]["bin"][:3], WIDTH.get(ty, 0), show(pv.operand(st["rv"]["a"], bi, si)), show(pv.operand(st["rv"]["b"], bi, si))))
+        return out
+    exp = [
+        (afv + "update_reference", "decay product", "Mul", 64, lambda a, b: "volatility_accumulator" in a + b and "reduction_factor" in a + b),
+        (afv + "update_volatility_accumulator", "delta scaling", "Mul", 64, lambda a, b: "VOLATILITY_ACCUMULATOR_SCALE_FACTOR" in a + b),
+        (afv + "update_volatility_accumulator", "reference + scaled delta", "Add", 64, lambda a, b: "volatility_reference" in a + b),
+        (frm + "compute_adaptive_fee_rate", "square", "Mul", 64, lambda a, b: "volatility_accumulator" in a and "volatility_accumulator" in b),
+        (frm + "compute_adaptive_fee_rate", "factor * square", "Mul", 128, lambda a, b: "adaptive_fee_control_factor" in a + b),
+        (frm + "compute_adaptive_fee_rate", "denominator", "Mul", 128, lambda a, b: "ADAPTIVE_FEE_CONTROL_FACTOR_DENOMINATOR" in a + b and "volatility_accumulator" not in a + b),
+    ]
+    for path, what, op, width, pred in exp:
+        fn = facts.need_fn(path)
+        run.touch(fn)
+        hits = [x for x in arith(fn) if x[0] == op and pred(x[2], x[3])]
+        ok = bool(hits) and all(h[1] >= width for h in hits)
+        run.check(rule, "%s%s@%s" % (tag, what.replace(" ", "-"), path.rsplit("::", 1)[-1]), ok, "%s: the %s is computed in %s bits, needs >= %d" % (path, what, [h[1] for h in hits], width), loc=fn.loc(),
+                  detail="%s in u%d" % (what, width))
+
+
+def R7_widths(run):
+    run.title("R7", "intermediate products are formed in a type wide enough for every validated constant set: accumulator * reduction_factor and |delta| * 10_000 (+ reference) in u64, "
+                    "(acc * size)^2 in u64, control_factor * squared and the 1e13 denominator in u128 (release builds wrap silently: overflow-checks are off)")
+    check_widths(run, "R7", run.facts, AFV, FRM)
+
+
+RULES = [R1_clamps, R2_constants_validated, R3_reference_update, R4_gates, R5_stored_variables, R6_stepping, R7_widths]
